@@ -55,16 +55,15 @@ func parseCIDR(cidr string) (*net.IPNet, error) {
 		return nil, err // Return original CIDR parse error
 	}
 
-	// Convert single IP to CIDR notation
-	if ip.To4() != nil {
+	// Convert single IP to a network of exactly that address. The mask is built from the
+	// parsed address, not from its text: "::ffff:10.0.0.1" is the IPv4 address 10.0.0.1, and
+	// appending "/32" to that text would give the IPv6 network ::/32 instead
+	if ip4 := ip.To4(); ip4 != nil {
 		// IPv4
-		_, ipNet, _ = net.ParseCIDR(cidr + "/32")
-	} else {
-		// IPv6
-		_, ipNet, _ = net.ParseCIDR(cidr + "/128")
+		return &net.IPNet{IP: ip4, Mask: net.CIDRMask(32, 32)}, nil
 	}
-
-	return ipNet, nil
+	// IPv6
+	return &net.IPNet{IP: ip, Mask: net.CIDRMask(128, 128)}, nil
 }
 
 // IsAllowed checks if the given IP address is allowed
